@@ -851,9 +851,14 @@ def run_state_stream(ctx, G, Gf):
                     ctx.fail({"call": name, "symptom": "different-value-under-" + mode, "stream": "fp-state"}, dict(cj, mode=mode),
                              f"{name} under {mode} returns a p-box that is not the Bel/Pl inverse (it is under the default settings)")
         # the default settings still give the right answer afterwards
-        p_ = stacking([[a, b] for a, b in zip(lo, hi)], weights=list(w))
-        if bounds_bad(("ok", [float(x) for x in p_.left], [float(x) for x in p_.right]), el, er, al, ar):
-            ctx.fail({"call": "stacking", "symptom": "state-leaked", "stream": "fp-state"}, cj, "stacking gives another p-box after the escalated-warning calls")
+        try:
+            p_ = stacking([[a, b] for a, b in zip(lo, hi)], weights=list(w))
+            after = ("ok", [float(x) for x in p_.left], [float(x) for x in p_.right])
+        except BaseException as e:  # noqa   (a raise here is a failing input like any other, not a harness crash)
+            after = ("err", core.err_kind(e))
+        if after[0] == "err" or bounds_bad(after, el, er, al, ar):
+            ctx.fail({"call": "stacking", "symptom": "state-leaked" if after[0] == "ok" else "raises:" + after[1], "stream": "fp-state"}, cj,
+                     "stacking gives another p-box (or raises) under the default settings after the escalated-warning calls")
     # ---------------- (P ii) the public discretisation changed, used, restored
     old = (Params.steps, Params.p_values)
     reqs, pend = [], []
